@@ -67,7 +67,7 @@ func (mdb *memDb) Get(ctx context.Context, key []byte) ([]byte, error) {
 	if mk.Translation != "" {
 		v, ok = mdb.store[mk.Translation]
 		if ok {
-			return v, nil
+			return append([]byte{}, v...), nil
 		}
 	}
 	v, ok = mdb.store[mk.Default]
@@ -75,7 +75,8 @@ func (mdb *memDb) Get(ctx context.Context, key []byte) ([]byte, error) {
 		//b, _ := hex.DecodeString(k)
 		return nil, db.NewErrNotFound(key)
 	}
-	return v, nil
+	// the stored value stays the store's: the caller gets a copy
+	return append([]byte{}, v...), nil
 }
 
 // Put implements Db
@@ -93,7 +94,8 @@ func (mdb *memDb) Put(ctx context.Context, key []byte, val []byte) error {
 	} else {
 		k = mk.Default
 	}
-	mdb.store[k] = val
+	// the caller keeps its slice: store a copy
+	mdb.store[k] = append([]byte{}, val...)
 	logg.TraceCtxf(ctx, "mem put", "k", k, "mk", mk, "v", val)
 	return nil
 }
